@@ -14,6 +14,14 @@ fn usage() -> ! {
 }
 
 fn main() {
+    if std::env::var_os("ASAN_OPTIONS").is_none() {
+        // for the AddressSanitizer flavour (inherited by the workers): abort (signal) on a report,
+        // and keep the sanitizer's own bookkeeping small - a worker creates thousands of VMs
+        std::env::set_var(
+            "ASAN_OPTIONS",
+            "detect_leaks=0:quarantine_size_mb=8:malloc_context_size=0:allocator_release_to_os_interval_ms=-1:abort_on_error=1",
+        );
+    }
     let args: Vec<String> = std::env::args().collect();
     if args.len() < 2 {
         usage();
